@@ -472,6 +472,39 @@ def check_dataset(layout, ids, indivs, only=None):
         if ok and check_series_len(iss, "get_admid", got, n):
             compare_accept(iss, "get_admid", pylist(got), R.ref_admid(recs), recs)
 
+    # ---- locality: a per-individual walk cannot see other individuals - what a series function reports for the records of one
+    #      individual equals what it reports on the dataset of that individual alone (contiguous individuals only)
+    inds = R.individuals(recs)
+    if want("locality") and len(inds) > 1 and all(rows == list(range(rows[0], rows[0] + len(rows))) for _, rows in inds):
+        series_fns = [("get_admid", pm.get_admid), ("get_cmt", pm.get_cmt), ("get_doseid", pm.get_doseid), ("get_evid", pm.get_evid),
+                      ("get_mdv", pm.get_mdv)]
+        whole = {}
+        for name, fn in series_fns:
+            ok, got = call(Issues(), name, fn, model)
+            if ok and hasattr(got, "tolist") and len(got) == n:
+                whole[name] = pylist(got)
+        for pos, (_, rows) in enumerate(inds):
+            sub = [recs[k] for k in rows]
+            try:
+                m1, _ = build_model(layout, sub)
+            except Exception:
+                break
+            for name, fn in series_fns:
+                if name not in whole:
+                    continue
+                ok, got = call(Issues(), name, fn, m1)
+                if not ok or not hasattr(got, "tolist") or len(got) != len(rows):
+                    continue
+                iss.compared += 1
+                a, b = [whole[name][k] for k in rows], pylist(got)
+                if name == "get_doseid":  # numbered per individual or across individuals: compare up to the individual's offset
+                    a = [x - a[0] for x in a]
+                    b = [x - b[0] for x in b]
+                if any(not veq(x, y) for x, y in zip(a, b)):
+                    iss.add(f"{name}:not_local", f"{name} gives {a} for the records of individual {pos + 1} of {len(inds)} in the whole "
+                                                 f"dataset but {b} on that individual alone")
+                    break
+
     # ---- baselines / covariates
     if want("get_baselines"):
         ok, got = call(iss, "get_baselines", pm.get_baselines, model)
